@@ -1,6 +1,6 @@
 PROP = dict(
     id='C14', level='exploration',
-    pyvc=[],
+    pyvc=['contracts.c14'],
     finite=[],
     bounded='bounded.c14',
     bounded_budget=dict(quick=45, thorough=420),
